@@ -38,7 +38,7 @@ func HarnessC13(a []int) {
 	for b := 0; b < nBusy; b++ {
 		in <- &knxnet.RoutingBusy{WaitTime: wait, Control: uint16(nondetChoice(2))}
 	}
-	lost := 0
+	lost, extra := 0, 0
 	if len(a) > 5 && a[5] > 0 {
 		// a lost indication after the senders are done: the repetitions are paced like any transmission
 		verifSleep(int64(5 * time.Second))
@@ -47,12 +47,22 @@ func HarnessC13(a []int) {
 			lost = nS * per
 		}
 		in <- &knxnet.RoutingLost{Count: uint16(a[5])}
+		// a fresh Send competes with the repetitions (it may be waiting for its turn while they go
+		// out): whatever the order, every transmission keeps the pause to the one before
+		extra = 1
+		verifAssert("C13.send_next_to_resend_succeeds", router.Send(rmsg(90)) == nil)
 	}
 	verifSleep(int64(10 * time.Second))
 	verifQuiesce()
 	_, stamps := routerSent()
 	verifAssert("C13.every_send_returns", returned == nS*per)
-	verifAssert("C13.all_transmitted", len(stamps) == nS*per+lost)
+	// (the fresh Send may win the lock before the lost indication is served; it is then one of the
+	// retained messages and may be repeated as well)
+	most := nS*per + lost + extra
+	if extra == 1 && a[5] > lost {
+		most++
+	}
+	verifAssert("C13.all_transmitted", len(stamps) >= nS*per+lost+extra && len(stamps) <= most)
 	for i := 1; i < len(stamps); i++ {
 		verifAssert("C13.pacing_gap", stamps[i]-stamps[i-1] >= int64(pause))
 	}
